@@ -18,3 +18,31 @@ func TestRegManyOverwrites(t *testing.T) {
 	}
 	vstat.One(t, prop, c, run)
 }
+
+// TestRegFaultedSameSlotBatch: a slot already holds an older value; one batch carries two
+// (ascending / descending / mixed) newer values of that slot — the inner Set does not
+// dedupe — and every storage boundary of that write fails once. After each failure the
+// index must advertise exactly what is stored (the undo has to put a repeated id back to
+// its genuine pre-call head); a seeded change that restored the saved heads in forward
+// order was not caught before bursts like this were generated.
+func TestRegFaultedSameSlotBatch(t *testing.T) {
+	outerT = t
+	c := baseCase()
+	c.Vals = []Val{
+		{Key: 1, Dev: 2, Acct: 0, TS: 1, Head: 0},
+		{Key: 1, Dev: 2, Acct: 0, TS: 2, Head: 0},
+		{Key: 1, Dev: 2, Acct: 0, TS: 3, Head: 0},
+		{Key: 1, Dev: 2, Acct: 1, TS: 4, Head: 1},
+		{Key: 1, Dev: 2, Acct: 0, TS: 5, Head: 0},
+		{Key: 1, Dev: 2, Acct: 0, TS: 6, Head: 0},
+	}
+	c.Ops = []Op{
+		{K: "raw", S: 0, Items: []Item{{V: 0}}},
+		{K: "raw", S: 0, Items: []Item{{V: 1}, {V: 2}}, Fault: true},
+		{K: "raw", S: 0, Via: 1, Items: []Item{{V: 5}, {V: 3}, {V: 4}}, Fault: true},
+		{K: "raw", S: 1, Via: 1, Items: []Item{{V: 2}, {V: 1}, {V: 3}}, Fault: true},
+		{K: "sync", S: 1, T: 0, N: 1, Fault: true},
+		{K: "sync", S: 0, T: 1, N: 0, Fault: true},
+	}
+	vstat.One(t, prop, c, run)
+}
